@@ -43,12 +43,12 @@ class M_entry(MNode):
 
 class M_map(MNode):
     def update(self, x, md, who):
-        yield self.fn(self.p["f"])(x), md
+        yield self.fn(self.p["f"])(x, *self.p.get("args", []), **self.p.get("kw", {})), md
 
 
 class M_starmap(MNode):
     def update(self, x, md, who):
-        yield self.fn(self.p["f"])(*x), md
+        yield self.fn(self.p["f"])(*x, *self.p.get("args", []), **self.p.get("kw", {})), md
 
 
 class M_filter(MNode):
